@@ -4,22 +4,23 @@ set -u
 WT=$1; NAME=$2
 cd $WT || exit 2
 export CARGO_NET_OFFLINE=true CARGO_TARGET_DIR=$WT/target
-git checkout -q -- . ; git clean -fdq src tests
+git reset -q --hard HEAD ; git clean -fdq src tests
 DEMO_CMD=$(python3 -c "import json;print(json.load(open('$WT/OUT/meta.json'))['demo_command'])")
 FILTER=$(python3 -c "
 import json,re
 d=json.load(open('$WT/OUT/meta.json'))['demo_command']
+t=re.findall(r'cargo test --offline\\s+(--test\\s+[A-Za-z0-9_]+)', d)
 m=re.findall(r'cargo test --offline\\s+([A-Za-z0-9_:]+)', d)
-print(m[-1] if m else d.split()[-1])")
+print(t[-1] if t else (m[-1] if m else d.split()[-1]))")
 echo "demo filter: $FILTER"
 git apply OUT/demo.diff || { echo "DEMO DOES NOT APPLY"; exit 1; }
 cargo test --offline $FILTER 2>&1 | grep -E "^test result|FAILED|panicked" | head -5 > /tmp/wt/$NAME.without.txt
 git apply OUT/patch.diff || { echo "PATCH DOES NOT APPLY"; exit 1; }
 cargo test --offline $FILTER 2>&1 | grep -E "^test result|FAILED|panicked" | head -5 > /tmp/wt/$NAME.with.txt
-git checkout -q -- . ; git clean -fdq src tests
+git reset -q --hard HEAD ; git clean -fdq src tests
 git apply OUT/patch.diff
 cargo test --offline 2>&1 | grep -E "^test result" > /tmp/wt/$NAME.suite.txt
-git checkout -q -- . ; git clean -fdq src tests
+git reset -q --hard HEAD ; git clean -fdq src tests
 echo "--- without change:"; cat /tmp/wt/$NAME.without.txt; echo "--- with change:"; cat /tmp/wt/$NAME.with.txt; echo "--- suite with change only:"; cat /tmp/wt/$NAME.suite.txt
 mkdir -p /verif/seeded/$NAME
 cp OUT/patch.diff /verif/seeded/$NAME/patch.diff; cp OUT/demo.diff /verif/seeded/$NAME/demo.diff; cp OUT/meta.json /verif/seeded/$NAME/agent_meta.json
